@@ -93,6 +93,84 @@ contract(_P + "_package_groups#offsets",
          sentinel=("offsets-ignore-wants", "True == False"))
 
 
+# ------------------------------------------------------------------------ C01.slices: the parts of one chunk partition its lines
+contract(_P + "_locate_ps1_linenos",
+         params={"self": "DoctestParser", "source_lines": "list[str]"}, returns="tuple[list[int],str]", trusted=True,
+         raises={"Exception*?": None},
+         ensures=[("statement-starts-are-lines-of-the-chunk", "all(0 <= result[0][k] and result[0][k] < len(source_lines) for k in range(len(result[0])))"),
+                  ("in-increasing-order", "all(result[0][k] < result[0][k + 1] for k in range(len(result[0]) - 1))"),
+                  ("the-last-is-the-largest", "all(result[0][k] <= result[0][len(result[0]) - 1] for k in range(len(result[0])))"),
+                  ("a-compile-mode", "result[1] == 'exec' or result[1] == 'eval' or result[1] == 'single'")],
+         note="assumed here (ast / tokenize based): the 0-based lines on which the statements of the chunk start, as sorted(set(..)) "
+              "returns them; checked against an independent oracle by the bounded stand-in bounded/c01_chunks.py")
+contract("xdoctest.directive:Directive.extract", params={"cls": "Val", "text": "str"}, returns="reclist[Directive]", trusted=True,
+         raises={"Exception*?": None}, note="assumed here: the directives written in a statement's text (C04.extract is its own contract)")
+record("Directive", inline="bool")
+
+_SLICE_OPTS = {"native": False, "inline": ["xdoctest.doctest_part:DoctestPart.__init__"],
+               "closure": {"exec_source_lines": "list[str]", "source_lines": "list[str]", "ps1_to_directive": "map[int,Val]",
+                           "lineno": "int"}}
+contract(_P + "_package_chunk.slice_example",
+         params={"s1": "int", "s2": "Optional[int]", "want_lines": "Optional[list[str]]"}, returns="DoctestPart",
+         ensures=[("executes-these-lines", "result.exec_lines == (exec_source_lines[s1:] if s2 is None else exec_source_lines[s1:s2])"),
+                  ("shows-these-lines", "result.orig_lines == (source_lines[s1:] if s2 is None else source_lines[s1:s2])"),
+                  ("line-of-its-first-statement", "result.line_offset == lineno + s1"),
+                  ("carries-the-want-it-is-given", "(result.want_lines is None) == (want_lines is None) and "
+                                                   "implies(want_lines is not None, result.want_lines == want_lines)")],
+         props=["C01", "C08"], opts=_SLICE_OPTS,
+         note="a part made from the statement lines [s1, s2) of the chunk",
+         sentinel=("always-the-whole-chunk", "result.exec_lines == exec_source_lines"))
+
+_B = "(break_linenos[len(break_linenos) - 1] if len(break_linenos) > 0 else 0)"
+_LASTPS1 = "ps1_linenos[len(ps1_linenos) - 1]"
+_EV = "ev_arg('slice_example', %s, '%s')"
+contract(_P + "_package_chunk#slices",
+         params={"self": "DoctestParser", "raw_source_lines": "list[str]", "raw_want_lines": "list[str]", "lineno": "int"},
+         requires=[("a-chunk-has-a-source-line", "len(raw_source_lines) >= 1")],
+         raises={"Exception*?": None},
+         loops={0: LoopSpec(header="zip(ps1_linenos, ps1_linenos[1:] + [None])",
+                            types={"break_linenos": "list[int]", "ps1_to_directive": "map[int,Val]"},
+                            invariants=[("breaks-are-statement-starts",
+                                         "all(0 <= b and b <= " + _LASTPS1 + " for b in break_linenos)")],
+                            body_post=[("no-directive-no-break", "implies(len(directives) == 0, break_linenos == before(break_linenos))"),
+                                       ("a-directive-starts-a-part",
+                                        "implies(len(directives) > 0 and not (directives[0].inline and s2 is not None), "
+                                        "break_linenos == before(break_linenos) + [s1] and s1 in ps1_to_directive)"),
+                                       ("an-inline-directive-also-ends-its-part-at-the-next-statement",
+                                        "implies(len(directives) > 0 and directives[0].inline and s2 is not None, "
+                                        "break_linenos == before(break_linenos) + [s1, (s2 if s2 is not None else -1)] and s1 in ps1_to_directive)")]),
+                1: LoopSpec(header="zip(ps1_linenos, ps1_linenos[1:])",
+                            invariants=[("cursor", "s2 == (ps1_linenos[_i1] if _i1 > 0 else 0)")],
+                            body_post=[("one-statement-one-part", "ev_count('slice_example') == 1 and " + _EV % (0, 's1') + " == ps1_linenos[_i1] and "
+                                        + _EV % (0, 's2') + " == ps1_linenos[_i1 + 1] and ev_count('yield') == 1 and ev_arg('yield', 0, 'value') is example")]),
+                2: LoopSpec(header="zip(break_linenos, break_linenos[1:])",
+                            invariants=[("cursor", "s2 == (break_linenos[_i2] if _i2 > 0 else 0)")],
+                            body_post=[("consecutive-forward-slices",
+                                        "ev_count('slice_example') == 1 and " + _EV % (0, 's1') + " == break_linenos[_i2] and "
+                                        + _EV % (0, 's2') + " == break_linenos[_i2 + 1] and break_linenos[_i2] < break_linenos[_i2 + 1] and "
+                                        "ev_count('yield') == 1 and ev_arg('yield', 0, 'value') is example"),
+                                       ("from-the-first-line", "implies(_i2 == 0, break_linenos[0] == 0)")])},
+         props=["C01", "C04"],
+         opts={"native": False,
+               "exit_facts": [
+                   ("rest-starts-where-the-directive-parts-ended",
+                    "implies(not self.simulate_repl, " + _EV % (0, 's1') + " == " + _B + ")"),
+                   ("last-statement-split-off-only-forward",
+                    "implies(not self.simulate_repl and ev_count('slice_example') == 2, " + _EV % (0, 's2') + " == " + _LASTPS1 + " and "
+                    + _EV % (-1, 's1') + " == " + _LASTPS1 + " and " + _B + " < " + _LASTPS1 + ")"),
+                   ("at-most-one-split", "ev_count('slice_example') == 1 or (ev_count('slice_example') == 2 and not self.simulate_repl)"),
+                   ("repl-rest-starts-at-the-last-statement",
+                    "implies(self.simulate_repl, " + _EV % (0, 's1') + " == (" + _LASTPS1 + " if len(ps1_linenos) >= 2 else 0))"),
+                   ("last-part-runs-to-the-end-and-carries-the-want",
+                    _EV % (-1, 's2') + " is None and " + _EV % (-1, 'want_lines') + " == want_lines"),
+                   ("every-part-is-yielded", "ev_count('yield') == ev_count('slice_example') and ev_arg('yield', -1, 'value') is example"),
+                   ("compile-mode-of-the-last-part", "example.compile_mode == ('exec' if len(want_lines) == 0 else mode_hint)")]},
+         note="the parts of a chunk are consecutive, forward, non-overlapping slices of its lines starting at line 0 and ending at its "
+              "end: every statement line is in exactly one part, in order (C01); loop clauses give the slices made inside the loops, "
+              "the exit facts the one or two made after them",
+         sentinel=("one-part-per-chunk", "True == False"))
+
+
 # ------------------------------------------------------------------------ C13.delta / C13.lines: the labeller
 record("EnumIter", seq="list[str]", pos="int", start="int")
 record("ReMatch", start_="int", end_="int")
